@@ -197,4 +197,43 @@ Section Lin.
 
   Theorem atomic_linearizable_real_time es : valid es -> forall t, alternates 0 (proj_thread t es) = true.
   Proof. intros [st H] t. exact (alternates_run es init_st st t H). Qed.
+  (* every logged call was invoked: the linearization contains only calls of the execution *)
+  Definition InvokedInv (seen : list event) (st : cstate) : Prop :=
+    (forall t c r, In (t, c, r) (log st) -> In (Inv t c) seen) /\
+    (forall t c, stat st t = Pending c -> In (Inv t c) seen).
+
+  Lemma invoked_run es : forall seen st st', InvokedInv seen st -> erun st es = Some st' ->
+    InvokedInv (seen ++ es) st'.
+  Proof.
+    induction es as [|e es IH]; intros seen st st' HI Hr; cbn [erun] in Hr.
+    - injection Hr as <-. now rewrite app_nil_r.
+    - destruct (estep st e) as [st1|] eqn:E; [|discriminate].
+      replace (seen ++ e :: es) with ((seen ++ [e]) ++ es) by (now rewrite <- app_assoc).
+      apply (IH _ st1 st'); [|exact Hr]. destruct HI as [Hlog Hpend].
+      destruct e as [t c | t | t r]; cbn [estep] in E.
+      + destruct (stat st t) eqn:Et; try discriminate. injection E as <-. split; cbn [log stat].
+        * intros u c' r' H. apply in_or_app. left. eauto.
+        * intros u c' Hu. unfold setst in Hu. apply in_or_app. destruct (Nat.eqb_spec u t) as [-> | Hne].
+          -- injection Hu as <-. right. now left.
+          -- left. eauto.
+      + destruct (stat st t) as [|c|] eqn:Et; try discriminate.
+        destruct (stepm (sigma st) c) as [s' r]. injection E as <-. split; cbn [log stat].
+        * intros u c' r' [H | H]; apply in_or_app; left; [injection H as <- <- <-; eauto | eauto].
+        * intros u c' Hu. unfold setst in Hu. apply in_or_app. left.
+          destruct (Nat.eqb u t); [discriminate | eauto].
+      + destruct (stat st t) as [| |c r'] eqn:Et; try discriminate.
+        destruct (rt_eqb r r'); [|discriminate]. injection E as <-. split; cbn [log stat].
+        * intros u c' r'' H. apply in_or_app. left. eauto.
+        * intros u c' Hu. unfold setst in Hu. apply in_or_app. left.
+          destruct (Nat.eqb u t); [discriminate | eauto].
+  Qed.
+
+  Theorem linearization_calls_invoked es st :
+    erun init_st es = Some st -> forall c, In c (lin_calls st) -> exists t, In (Inv t c) es.
+  Proof.
+    intros H c Hc. assert (HI : InvokedInv [] init_st) by (split; cbn; [intros ? ? ? [] | intros; discriminate]).
+    destruct (invoked_run es [] init_st st HI H) as [Hlog _]. cbn [app] in Hlog.
+    unfold lin_calls in Hc. apply in_map_iff in Hc as ([[t c'] r] & <- & Hin). cbn.
+    apply in_rev in Hin. eauto.
+  Qed.
 End Lin.
